@@ -177,6 +177,8 @@ fn exec_line(line: &str) -> String {
                 resp::Reads::Drain(resp::DRAIN_JSON)
             } else if rds.starts_with('S') {
                 resp::Reads::Drain(resp::DRAIN_SPLIT)
+            } else if rds.starts_with('X') {
+                resp::Reads::Drain(resp::DRAIN_TEXT)
             } else if rds.starts_with('Q') {
                 resp::Reads::Drain(resp::DRAIN_ERR_FOR_STATUS)
             } else if let Some(sz) = rds.strip_prefix('T') {
